@@ -170,6 +170,13 @@ where
     }
 }
 
+#[cfg(bma400_verif)]
+impl FifoConfig {
+    pub(crate) fn verif_regs(&self) -> [(u8, u8); 4] {
+        verif_regs!(self; fifo_config0, fifo_config1, fifo_config2, fifo_pwr_config)
+    }
+}
+
 #[cfg(test)]
 mod tests {
     use super::*;
